@@ -28,6 +28,35 @@ class C02(Prop):
             cut = rng.randrange(0, len(prefix) + 1)
             after.append("c02after %s %s" % (gen.hexs(prefix[:cut] + [rng.choice([0x18, 0x1A])]), gen.hexs(s)))
         yield "after-cancel", after
+        yield "huge-osc", self.streams_extra(tier, rng)
+
+    def huge_osc(self, rng):
+        """OSC strings far beyond 64 KiB (clipboard / image payloads): the extracted model is quadratic in
+        the payload length, so the expected callbacks are known BY CONSTRUCTION of the input instead"""
+        nf = rng.randrange(1, 6)
+        fields = [bytes(rng.choice(b"ABCDEFabcdef0123456789+/=") for _ in range(rng.choice([0, 3, 40000, 66000, 70000]))) for _ in range(nf)]
+        if max(len(f) for f in fields) < 66000:
+            fields[rng.randrange(nf)] = b"Q" * 70001
+        bell = rng.randrange(2) == 0
+        data = b"a\x1b]" + b";".join(fields) + (b"\x07" if bell else b"\x1b\\") + b"z"
+        want = "p:97 o:%d:%s:%d" % (nf, ",".join(f.hex() for f in fields), 1 if bell else 0)
+        want += (" " if bell else " e:0::0:92 ") + "p:122"
+        return "c02big " + data.hex(), want
+
+    def streams_extra(self, tier, rng):
+        self._big = dict(self.huge_osc(rng) for _ in range(6 if tier == "thorough" else 3))
+        return list(self._big)
+
+    def observe(self, ctx, name, lines, results):
+        if name != "huge-osc":
+            return []
+        out = []
+        for label, _ in ctx["impls"]:
+            for l, r in zip(lines, results["impl-" + label]):
+                if r != self._big[l] and len(out) < 3:
+                    out.append({"stream": name, "case": l[:200] + "...(%d bytes)" % (len(l) // 2), "build": label, "impl": r[:300] + "...",
+                                "spec": "by construction: " + self._big[l][:300] + "...", "model": "N/A"})
+        return out
 
     def nontrivial(self, line, impl):
         if line.startswith("tbl"):
